@@ -29,3 +29,36 @@ Definition zmttkrp := mttkrp_den (V:=Z) 0 1 Z.add Z.mul.
 Definition zmttkrps (T : dense Z) (As : list (list (list Z))) (R : nat) : list (list (list Z)) :=
   map (zmttkrp (dshape T) (den_dense 0 T) As R) (seq 0 (length (dshape T))).
 Definition mats_eqb := list_eqb mat_eqb.
+
+(* ---- fg_est.estimate with lambda_check: `if lambda_check and any(model.weights != 1.0): model = model.normalize(0)` ----
+   normalize(0) rescales every column to unit 2-norm and absorbs weight * (product of the norms) into mode 0.  In exact
+   arithmetic the normalised factors are  A'_0[:,r] = A_0[:,r] * w_r * prod_{l>=1} n_{l,r},  A'_l[:,r] = A_l[:,r] / n_{l,r},
+   so: the model values are those of the weighted model (= the factor-only values after absorbing w into mode 0, integers),
+   and the gradients differ from the ones for the absorbed factors by the column factors c_{0,r} = 1 / prod_{l>=1} n_{l,r},
+   c_{k,r} = n_{k,r} (k >= 1).  The norms (square roots) are supplied by the harness as rationals; everything else is
+   computed here in Z. *)
+From Coq Require Import QArith Qcanon.
+Local Open Scope Z_scope.
+Fixpoint zmul_row (row lam : list Z) : list Z :=
+  match row, lam with x :: row', w :: lam' => x * w :: zmul_row row' lam' | _, _ => [] end.
+Definition absorb0 (lam : list Z) (As : list (list (list Z))) : list (list (list Z)) :=
+  match As with [] => [] | A :: As' => map (fun row => zmul_row row lam) A :: As' end.
+Definition lam_used (lcheck : bool) (lam : list Z) : bool := lcheck && existsb (fun w => negb (w =? 1)) lam.
+Definition lam_factors (lcheck : bool) (lam : list Z) (As : list (list (list Z))) :=
+  if lam_used lcheck lam then absorb0 lam As else As.
+Definition zest_lam_F (id : nat) (lcheck : bool) (lam : list Z) As := zest_F id (lam_factors lcheck lam As).
+Definition zest_lam_G (id : nat) (lcheck : bool) (lam : list Z) As := zest_G id (lam_factors lcheck lam As).
+
+Definition z2q (z : Z) : Qc := Q2Qc (inject_Z z).
+Fixpoint all2 {A B} (p : A -> B -> bool) (l1 : list A) (l2 : list B) : bool :=
+  match l1, l2 with
+  | [], [] => true
+  | a :: l1', b :: l2' => p a b && all2 p l1' l2'
+  | _, _ => false
+  end.
+(* observed (rational) gradient matrices against c_{k,r} * G_k[j,r] *)
+Definition scaled_close (cs : list (list Qc)) (G : list (list (list Z))) (obs : list (list (list Qc))) : bool :=
+  all2 (fun cG ok => all2 (fun row orow => all2 (fun cg o => qclose tol9 o (fst cg * z2q (snd cg))%Qc) (combine (fst cG) row) orow)
+                          (snd cG) ok) (combine cs G) obs
+  && Nat.eqb (length cs) (length G).
+Definition zq_close (obs : Qc) (z : Z) : bool := qclose tol9 obs (z2q z).
